@@ -1,7 +1,209 @@
-(** C18 — Client lifecycle installs a usable client or changes nothing.  Only statements here. *)
-From Teleport Require Import Base.Bytes Base.Outcome Base.AList Model.Lifecycle Proofs.Lifecycle.
+(** C18 — Client lifecycle installs a usable client or changes nothing.
+    Only statements here; proofs are in Proofs/Lifecycle.v and Proofs/LifecycleMonitor.v.
+
+    The model is Model/Lifecycle.v; [head_cfg] is the code of /repo HEAD (every repair landed).  [exec] is
+    the handler / message server, [step] wraps it the way gov (cache context written on success) and BaseApp
+    (per-message atomicity) do: result class 0 ok, 1 error, 2 panic.  Quantification: ALL states [st]
+    (arbitrary client stores, registries and block times — hence all histories; the invariants [wf_state]
+    and [clean_state] are shown for every history from the empty state), ALL proposals / headers (valid and
+    invalid contents; the four client types enter through [client_state], so the toggle theorems range
+    over all 12 ordered type pairs). *)
+From Teleport Require Import Base.Bytes Base.Outcome Base.AList Model.Lifecycle Model.LifecycleCheck
+  Proofs.Lifecycle Proofs.LifecycleMonitor.
 Local Open Scope N_scope.
 
+(** ** A failed step changes nothing (any code variant): the previous client, its consensus states and
+    metadata, every other client, the registry and the clock are untouched. *)
 Theorem C18_failed_lifecycle_unchanged : forall cf st o, fst (step cf st o) <> 0%nat -> snd (step cf st o) = st.
 Proof. exact failed_step_unchanged. Qed.
 Print Assumptions C18_failed_lifecycle_unchanged.
+
+(** ** A successful step changes its own client store (or the registry, or the clock) and nothing else. *)
+Theorem C18_frame : forall cf st o st',
+  exec cf st o = Ok st' ->
+  match o with
+  | Create p | Upgrade p | Toggle p =>
+      relayers st' = relayers st /\ now st' = now st /\ forall m, m <> p_name p -> store_of st' m = store_of st m
+  | Update name _ _ _ =>
+      relayers st' = relayers st /\ now st' = now st /\ forall m, m <> name -> store_of st' m = store_of st m
+  | Register _ _ _ => now st' = now st /\ clients st' = clients st
+  | Tick dt => relayers st' = relayers st /\ clients st' = clients st /\ now st' = now st + dt
+  end.
+Proof. exact exec_frame. Qed.
+Print Assumptions C18_frame.
+
+(** ** Names: an invalid or already used chain name is rejected (and nothing changes). *)
+Theorem C18_create_rejects_used_or_invalid_name : forall cf st p,
+  valid_name (p_name p) = false \/ has_client st (p_name p) = true -> step cf st (Create p) = (1%nat, st).
+Proof. exact create_rejected. Qed.
+Print Assumptions C18_create_rejects_used_or_invalid_name.
+
+(** ** Create.  (a) Under a valid unused name, content that validates, is well-typed and can be initialised
+    is installed: the client store becomes EXACTLY the proposal's client state, its consensus state at the
+    latest height (none for TSS) and the type's metadata ([fresh_store]). *)
+Theorem C18_create_ok : forall st p,
+  valid_name (p_name p) = true -> p_validate p = true -> has_client st (p_name p) = false ->
+  store_of st (p_name p) = [] -> well_typed p -> installable (p_client p) ->
+  step head_cfg st (Create p) = (0%nat, with_store st (p_name p) (fresh_store (now st) (p_client p) (p_cons p))).
+Proof. intros. apply step_ok_iff. apply create_succeeds; assumption. Qed.
+Print Assumptions C18_create_ok.
+
+(** (b) Conversely EVERY successful create was of that kind and left exactly that store. *)
+Theorem C18_create_spec : forall st p st',
+  wf_state st -> exec head_cfg st (Create p) = Ok st' ->
+  valid_name (p_name p) = true /\ p_validate p = true /\ has_client st (p_name p) = false /\
+  well_typed p /\ installable (p_client p) /\
+  st' = with_store st (p_name p) (fresh_store (now st) (p_client p) (p_cons p)).
+Proof. intros st p st' W E. apply (create_spec head_cfg); [reflexivity | exact W | exact E]. Qed.
+Print Assumptions C18_create_spec.
+
+Theorem C18_fresh_store_installed : forall tnow c cns, installable c -> installed tnow c cns (fresh_store tnow c cns).
+Proof. exact fresh_store_installed. Qed.
+Print Assumptions C18_fresh_store_installed.
+
+(** ** An installed client is usable: Active while the installed consensus state is within the trusting
+    period, and an honest proof AT THE INSTALLED HEIGHT meets the delay gate only — never "no consensus
+    state" (3), "processed time missing" (4) or "above the latest height" (1); see [installed_gate]. *)
+Theorem C18_installed_active : forall tnow t c cns s,
+  installed tnow c cns s -> cs_type cns = type_of c -> fresh t c cns -> status t c s = 0%nat.
+Proof. exact installed_active. Qed.
+Print Assumptions C18_installed_active.
+
+Theorem C18_installed_gate : forall tnow t fx prf c cns s,
+  installed tnow c cns s -> cs_type cns = type_of c ->
+  gate t fx prf c s (latest_of c) = installed_gate tnow t fx prf c cns.
+Proof. exact installed_gate_ok. Qed.
+Print Assumptions C18_installed_gate.
+
+(** Tendermint: once the delay has passed the honest proof is checked against the installed root. *)
+Theorem C18_tm_gate_after_delay : forall tnow t fx prf l tr d y r cns,
+  tnow + y < two64 -> tnow + y <= t -> installed_gate tnow t fx prf (ClTm l tr d y r) cns = root_gate fx cns.
+Proof. exact installed_gate_tm_after. Qed.
+Print Assumptions C18_tm_gate_after_delay.
+
+(** ** Upgrade keeps the type and installs the proposal (with the metadata of the upgraded height). *)
+Theorem C18_upgrade_keeps_type : forall st p st',
+  exec head_cfg st (Upgrade p) = Ok st' ->
+  exists old s', sget KClient (store_of st (p_name p)) = Some (VClient old) /\ type_of old = type_of (p_client p) /\
+    valid_name (p_name p) = true /\ p_validate p = true /\ well_typed p /\
+    st' = with_store st (p_name p) s' /\ installed (now st) (p_client p) (p_cons p) s'.
+Proof. intros st p st' E. apply (upgrade_spec head_cfg); try reflexivity. exact E. Qed.
+Print Assumptions C18_upgrade_keeps_type.
+
+(** ** Toggle changes the type and initialises the NEW type on an emptied store — for every ordered pair of
+    distinct types (the old and the new client state are universally quantified). *)
+Theorem C18_toggle_changes_type_and_initialises_new : forall st p st',
+  exec head_cfg st (Toggle p) = Ok st' ->
+  exists old, sget KClient (store_of st (p_name p)) = Some (VClient old) /\ type_of old <> type_of (p_client p) /\
+    valid_name (p_name p) = true /\ p_validate p = true /\ well_typed p /\ installable (p_client p) /\
+    st' = with_store st (p_name p) (fresh_store (now st) (p_client p) (p_cons p)).
+Proof. intros st p st' E. apply (toggle_spec head_cfg); try reflexivity. exact E. Qed.
+Print Assumptions C18_toggle_changes_type_and_initialises_new.
+
+Theorem C18_toggle_succeeds : forall st p old,
+  valid_name (p_name p) = true -> p_validate p = true ->
+  sget KClient (store_of st (p_name p)) = Some (VClient old) -> type_of old <> type_of (p_client p) ->
+  well_typed p -> installable (p_client p) ->
+  step head_cfg st (Toggle p) = (0%nat, with_store st (p_name p) (fresh_store (now st) (p_client p) (p_cons p))).
+Proof. intros. apply step_ok_iff. apply (toggle_succeeds head_cfg st p old); try reflexivity; assumption. Qed.
+Print Assumptions C18_toggle_succeeds.
+
+(** ** A valid update from the authorised account succeeds, for all four types (TSS: from the TSS
+    account; the key is rotated), on every clean store. *)
+Theorem C18_valid_update_succeeds : forall st name c h signer,
+  authorised st name signer ->
+  sget KClient (store_of st name) = Some (VClient c) ->
+  (forall a r, c = ClTss a r -> a = signer) ->
+  status (now st) c (store_of st name) = 0%nat ->
+  store_clean c (store_of st name) -> header_valid_for (now st) c h (store_of st name) ->
+  exists st', step head_cfg st (Update name h signer true) = (0%nat, st') /\ updated c h (store_of st' name).
+Proof. intros. apply valid_update_succeeds; try assumption. reflexivity. Qed.
+Print Assumptions C18_valid_update_succeeds.
+
+(** ** In EVERY history from the empty state a client store holds consensus states of the client's type
+    only, every Tendermint iteration key has its consensus state and a TSS client has no consensus state:
+    the type part of [store_clean] never needs to be assumed (this is what clearing the store on a toggle
+    and rejecting ill-typed proposals buy; it is false without them, Refuted/C18_refuted.v). *)
+Theorem C18_reachable_clean : forall os t,
+  wf_state (run head_cfg (empty_state t) os) /\ clean_state (run head_cfg (empty_state t) os).
+Proof.
+  intros os t. split.
+  - apply wf_state_run, wf_state_empty.
+  - apply clean_reachable; try reflexivity; [apply wf_state_empty | apply clean_state_empty].
+Qed.
+Print Assumptions C18_reachable_clean.
+
+(** ** The executable monitor (LifecycleCheck.mon_installed_core, kinds 13-17 and 19) accepts every
+    successful proposal step of the model. *)
+Theorem C18_monitor_sound_create : forall st p st',
+  wf_state st -> exec head_cfg st (Create p) = Ok st' ->
+  (valid_name (p_name p) && negb (has_client st (p_name p))) = true /\ mon_installed_core 0 p st' = [].
+Proof. intros st p st'. apply (monitor_create_sound head_cfg); reflexivity. Qed.
+Print Assumptions C18_monitor_sound_create.
+
+Theorem C18_monitor_sound_upgrade : forall st p st',
+  clean_state st -> exec head_cfg st (Upgrade p) = Ok st' ->
+  (exists old, sget KClient (store_of st (p_name p)) = Some (VClient old) /\ ctype_eqb (type_of old) (type_of (p_client p)) = true) /\
+  mon_installed_core 1 p st' = [].
+Proof. intros st p st'. apply (monitor_upgrade_sound head_cfg); reflexivity. Qed.
+Print Assumptions C18_monitor_sound_upgrade.
+
+Theorem C18_monitor_sound_toggle : forall st p st',
+  exec head_cfg st (Toggle p) = Ok st' ->
+  (exists old, sget KClient (store_of st (p_name p)) = Some (VClient old) /\ ctype_eqb (type_of old) (type_of (p_client p)) = false) /\
+  mon_installed_core 2 p st' = [].
+Proof. intros st p st'. apply (monitor_toggle_sound head_cfg); reflexivity. Qed.
+Print Assumptions C18_monitor_sound_toggle.
+
+(** ** Non-vacuity: concrete contents of the four types meet the hypotheses, and a concrete history
+    (register; create Tendermint; update; upgrade; toggle to ETH; update; toggle to TSS; TSS key rotation;
+    toggle to BSC; update) succeeds at every step on the model of HEAD. *)
+Module Witness.
+  Definition name : bytes := B "chain-a".
+  Definition rel : bytes := B "relayer".
+  Definition t0 : N := 1000 * ns_per_s.
+  Definition tmk (ts : N) : cons_state := {| cs_type := TM; cs_ts := ts; cs_root := B "root"; cs_dg := B "k" |}.
+  Definition tmc (h : N) : client_state := ClTm (0, h) (500 * ns_per_s) (10 * ns_per_s) (5 * ns_per_s) (B "rest").
+  Definition ehd (n : N) (hash parent : bytes) (tm : N) : evm_hdr :=
+    {| eh_height := (0, n); eh_hash := hash; eh_parent := parent; eh_root := B "root"; eh_time := tm; eh_dg := hash;
+       eh_coinbase := B "val1"; eh_signer := Some (B "val1"); eh_vals := Some [B "val1"]; eh_cons_dg := hash |}.
+  Definition evk (t : ctype) (tm : N) : cons_state := {| cs_type := t; cs_ts := tm; cs_root := B "root"; cs_dg := B "k" |}.
+  Definition ethc : client_state := ClEth (ehd 100 (B "e100") (B "e99") 900) 1 100000 (B "rest").
+  Definition bscc : client_state := ClBsc (ehd 200 (B "b200") (B "b199") 900) 200 [B "val1"] 100000 (B "rest").
+  Definition tssc : client_state := ClTss rel (B "keys0").
+  Definition tssk : cons_state := {| cs_type := TSS; cs_ts := 0; cs_root := []; cs_dg := B "k" |}.
+  Definition prop (c : client_state) (k : cons_state) : proposal := {| p_name := name; p_client := c; p_cons := k; p_validate := true |}.
+  Definition history : list op :=
+    [ Register rel [name] true;
+      Create (prop (tmc 5) (tmk (t0 - 60 * ns_per_s)));
+      Update name (HTm (0, 5) (0, 7) (tmk (t0 - 10 * ns_per_s)) true) rel true;
+      Upgrade (prop (tmc 20) (tmk (t0 - 5 * ns_per_s)));
+      Tick (6 * ns_per_s);
+      Toggle (prop ethc (evk ETH 900));
+      Update name (HEvm ETH (ehd 101 (B "e101") (B "e100") 913) true) rel true;
+      Toggle (prop tssc tssk);
+      Update name (HTss (B "relayer2") (B "keys1")) rel true;
+      Toggle (prop bscc (evk BSC 900));
+      Update name (HEvm BSC (ehd 201 (B "b201") (B "b200") 903) true) rel true ].
+  Fixpoint classes (st : state) (os : list op) : list nat :=
+    match os with [] => [] | o :: os' => fst (step head_cfg st o) :: classes (snd (step head_cfg st o)) os' end.
+End Witness.
+
+Example C18_nonvacuous_history :
+  Witness.classes (empty_state Witness.t0) Witness.history = [0; 0; 0; 0; 0; 0; 0; 0; 0; 0; 0]%nat /\
+  (let st := run head_cfg (empty_state Witness.t0) Witness.history in
+   exists c, sget KClient (store_of st Witness.name) = Some (VClient c) /\ type_of c = BSC /\
+             status (now st) c (store_of st Witness.name) = 0%nat /\
+             (* one block after the install: the honest proof at the installed height verifies *)
+             gate (now st) (B "root") [] c (store_of st Witness.name) (0, 200) = 0%nat).
+Proof. vm_compute. split; [reflexivity|]. eexists. repeat split. Qed.
+
+Example C18_nonvacuous_contents :
+  installable Witness.bscc /\ installable Witness.ethc /\ installable (Witness.tmc 5) /\ installable Witness.tssc /\
+  valid_name Witness.name = true /\
+  fresh Witness.t0 (Witness.tmc 5) (Witness.tmk (Witness.t0 - 60 * ns_per_s)) /\
+  fresh Witness.t0 Witness.ethc (Witness.evk ETH 900).
+Proof.
+  repeat split; try (vm_compute; reflexivity); try discriminate.
+  exists [B "val1"]. reflexivity.
+Qed.
